@@ -193,18 +193,24 @@ class LasWriter:
         flushes the points, updates the header, making it impossible
         to write points afterwards.
         """
-        if self.point_writer is not None:
-            if not self.done:
-                self.point_writer.done()
+        try:
+            if self.point_writer is not None:
+                if not self.done:
+                    self.point_writer.done()
 
-            if self.header.point_count == 0:
-                self.header.maxs = [0.0, 0.0, 0.0]
-                self.header.mins = [0.0, 0.0, 0.0]
+                if self.header.point_count == 0:
+                    self.header.maxs = [0.0, 0.0, 0.0]
+                    self.header.mins = [0.0, 0.0, 0.0]
 
-            self.point_writer.write_updated_header(self.header, self.encoding_errors)
-        if self.closefd:
-            self.dest.close()
-        self.done = True
+                self.point_writer.write_updated_header(
+                    self.header, self.encoding_errors
+                )
+        finally:
+            # the destination is released as asked even when it
+            # refused the last writes
+            if self.closefd:
+                self.dest.close()
+            self.done = True
 
     def _create_laz_backend(
         self, laz_backends: Union[LazBackend, Iterable[LazBackend]]
